@@ -70,7 +70,10 @@ RULE_ADDED = (
               ' '
               'Round 16: the manager in its own process signalled (SIGTERM) with one request un'
               "der way and two clients queued: no command goes to the device inside another's e"
-              'xchange. ')
+              'xchange. '
+              ' '
+              'Round 17: a manager serving thousands of requests (version requests by half of t'
+              'he clients) with device requests queued throughout. ')
 RULE = RULE + " " + RULE_ADDED.strip()
 ASSUMPTIONS = [
     "schedules are those the OS produces under injected device delays; not enumerated",
@@ -102,6 +105,7 @@ def shards(tier, seed):
                  "impatient": [3.5] if i in (1, 2) else [],
                  "v1_rounds": 2 if i in (0, 3, 6, 7) else 0,
                  "sgx_rounds": 2 if i in (1, 2, 4, 5) else 0,
+                 "long_lived_rounds": 1 if i in (2, 5) else 0,
                  "fault_rounds": 1 if 1 <= i <= 3 else 0,
                  "late": [12.5, 35.0] if i in (4, 5) else [],
                  "slowsend_rounds": 2 if i in (4, 5, 6, 7) else 0,
@@ -111,6 +115,7 @@ def shards(tier, seed):
     slow = {0: [6.5], 1: [12.0], 2: [32.0], 3: [62.0], 4: [125.0]}
     return [{"seed": seed * 100 + i, "rounds": 60, "max_clients": 16, "per_client": 4,
              "slow": slow.get(i, []), "impatient": [3.5, 6.5, 12.0], "v1_rounds": 8, "sgx_rounds": 8,
+             "long_lived_rounds": 2,
              "fault_rounds": 6 if i >= 5 else 0,
              "late": [10.5, 35.0, 12.5, 61.0, 30.0, 29.0] if i >= 5 else [],
              "slowsend_rounds": 3, "fatal_rounds": 8,
@@ -283,7 +288,8 @@ def expected_from_apdus(kind, apdus):
 
 
 def run_round(acc, spec, rnd, rng, slow=None, fault=None, late=None, slowsend=False,
-              uihb_tail=None, fatal=None, quiet=None, impatient=None, v1=False, plat=None):
+              uihb_tail=None, fatal=None, quiet=None, impatient=None, v1=False, plat=None,
+              long_lived=None):
     """fault: {"after": k, "efail": j, "kind": ...} - the link fails at the k-th exchange
     of the round and the next j reconnections find no device; clients keep sending for
     some seconds, so that any repair work done outside a request (a background retry)
@@ -318,6 +324,8 @@ def run_round(acc, spec, rnd, rng, slow=None, fault=None, late=None, slowsend=Fa
     per = spec["per_client"] if not slow else 2
     if fault:
         nclients, per = 3, 7
+    if long_lived:
+        nclients = 4
     case = {"seed": spec["seed"], "round": rnd}
     with Stack(dev, version_one=v1) as s:
         delay_rng = random.Random(rng.getrandbits(32))
@@ -407,6 +415,19 @@ def run_round(acc, spec, rnd, rng, slow=None, fault=None, late=None, slowsend=Fa
                     plan[c] = [("advance", byname["advance"]),
                                ("uihb", lambda: {"command": "uiHeartbeat", "version": 5,
                                                  "udValue": "33" * 32})] + plan[c]
+        if long_lived:
+            # a manager that has been up for a while: half of the clients fire version
+            # requests (they need no device, so thousands go by in seconds) while the others
+            # keep device requests queued - whatever the manager does every so many requests
+            # (a round number of them, a power of two), it does not do it inside a request
+            byname = dict(gens)
+            for c in range(nclients):
+                if c % 2 == 0:
+                    plan[c] = [("version", lambda: {"command": "version"})] * (
+                        long_lived // max(1, (nclients + 1) // 2))
+                else:
+                    plan[c] = [(k, byname[k]) for k in ("heartbeat", "state", "pubkey",
+                                                        "signhash")] * 12
         if fatal and fatal.get("interrupt"):
             # (version requests - which need no device - are spread among the others: they
             # are answered normally whatever the link's state)
@@ -862,6 +883,9 @@ def run_shard(spec, acc):
         else:
             run_round(acc, dict(spec, max_clients=max(4, spec["max_clients"]), per_client=4),
                       9500 + k, rng, plat="sgx", quiet=rng.choice([110.0, 119.0, 125.0, 601.0]))
+    for k in range(spec.get("long_lived_rounds", 0)):
+        acc.count("rounds_on_a_manager_serving_thousands_of_requests")
+        run_round(acc, dict(spec, max_clients=4), 9800 + k, rng, long_lived=2300)
     for k in range(spec.get("slowsend_rounds", 0)):
         run_round(acc, dict(spec, max_clients=6, per_client=4), 4000 + k, rng, slowsend=True)
     for k, d in enumerate(spec.get("uihb_tail", [])):
